@@ -22,6 +22,7 @@ import (
 	"sort"
 	"strings"
 	"time"
+	"unicode"
 
 	gregexp "github.com/grafana/regexp"
 	"github.com/sourcegraph/zoekt"
@@ -174,7 +175,17 @@ func isWordByte(c byte) bool {
 // classify names the failure class of a minimised failing query (the key matched against known findings).
 func classify(c *Corpus, q *QSpec, verdict string, missing, extra []string) string {
 	if len(extra) == 0 && engineKelvin(c, q, missing) {
-		return "mismatch:engine-kelvin-fold"
+		kelvin := strings.ContainsRune(q.Pat, 0x212a)
+		if q.Kind == "sym" {
+			kelvin = strings.ContainsRune(q.Ch[0].Pat, 0x212a)
+		}
+		for _, k := range missing {
+			kelvin = kelvin || strings.ContainsRune(k, 0x212a)
+		}
+		if kelvin {
+			return "mismatch:engine-kelvin-fold"
+		}
+		return "mismatch:engine-fold-orbit"
 	}
 	pre := "mismatch"
 	if strings.HasPrefix(verdict, "hang") {
@@ -202,9 +213,21 @@ func classify(c *Corpus, q *QSpec, verdict string, missing, extra []string) stri
 	return pre + ":" + q.Kind
 }
 
+// hasFoldOnlyUpper: s holds a rune that is an upper-case member of a fold orbit without being the ToUpper of its own
+// lower-casing (U+212A KELVIN SIGN -> k -> K, U+1E9E CAPITAL SHARP S -> U+00DF -> U+00DF, U+2126 OHM SIGN, U+212B
+// ANGSTROM SIGN): the runes a ToUpper/ToLower-based fold comparison cannot reach.
+func hasFoldOnlyUpper(s string) bool {
+	for _, c := range s {
+		if l := unicode.ToLower(c); l != c && unicode.ToUpper(l) != c {
+			return true
+		}
+	}
+	return false
+}
+
 // engineKelvin: the failure is the regexp engine's: for a case-insensitive atom that goes through the engine, the
 // grafana/regexp fork zoekt uses does not match a document text that the standard library's engine matches, and
-// U+212A KELVIN SIGN (whose simple-fold orbit is k, K, U+212A) is involved.
+// a rune of the hasFoldOnlyUpper class (e.g. U+212A KELVIN SIGN, whose simple-fold orbit is k, K, U+212A) is involved.
 func engineKelvin(c *Corpus, q *QSpec, missing []string) bool {
 	sym := false
 	if q.Kind == "sym" { // the same engine runs on the text of each symbol range
@@ -250,7 +273,7 @@ func engineKelvin(c *Corpus, q *QSpec, missing []string) bool {
 		}
 		hit := false
 		for _, text := range texts {
-			if st.MatchString(text) && !g.MatchString(text) && (strings.ContainsRune(text, 0x212a) || strings.ContainsRune(q.Pat, 0x212a)) {
+			if st.MatchString(text) && !g.MatchString(text) && (hasFoldOnlyUpper(text) || hasFoldOnlyUpper(q.Pat)) {
 				hit = true
 			}
 		}
@@ -471,6 +494,9 @@ func main() {
 
 func countKinds(w *gen.Writer, q *QSpec) {
 	w.Count("qkind:"+q.Kind, 1)
+	if (q.Kind == "substr" || q.Kind == "regex") && !q.CaseSens && hasCasedNonLetterTrigram(q.Pat) {
+		w.Count("q-case-insensitive-with-cased-non-letter-trigram", 1)
+	}
 	for i := range q.Ch {
 		countKinds(w, &q.Ch[i])
 	}
@@ -484,6 +510,8 @@ func checkAlphabet() {
 	all = append(all, wordish...)
 	all = append(all, fileBases...)
 	all = append(all, fileDirs...)
+	all = append(all, exoticCased...)
+	all = append(all, string(casedNonLetters))
 	for _, s := range all {
 		if !agreeString(s) {
 			panic(fmt.Sprintf("generator alphabet contains a rune outside the C01 quantifier: %q", s))
